@@ -160,6 +160,23 @@ func runC03(r *Result, d *drv.Driver, tier string, seed int64, replay string) {
 				inputs = append(inputs, decInput{typ: base.typ, data: base.data[:k], origin: "mut:truncate-every"})
 			}
 		}
+		// every declared length 0..len+9 of the outermost item (and of its first child) of a few messages, all bytes kept
+		for i := 0; i < 6 && i < nValid; i++ {
+			base := inputs[i]
+			if len(base.data) < 16 || len(base.data) > 700 {
+				continue
+			}
+			for L := 0; L <= len(base.data)+1; L++ {
+				b := append([]byte(nil), base.data...)
+				b[4], b[5], b[6], b[7] = byte(L>>24), byte(L>>16), byte(L>>8), byte(L)
+				inputs = append(inputs, decInput{typ: base.typ, data: b, origin: "mut:outer-length-every"})
+				if L <= len(base.data)-16 {
+					c := append([]byte(nil), base.data...)
+					c[12], c[13], c[14], c[15] = byte(L>>24), byte(L>>16), byte(L>>8), byte(L)
+					inputs = append(inputs, decInput{typ: base.typ, data: c, origin: "mut:child-length-every"})
+				}
+			}
+		}
 		decodeCorrespondence(r, d, g, inputs, func(in decInput, o decOut, model string) {
 			switch o.class {
 			case "panic":
